@@ -516,7 +516,14 @@ func runCase(p *PackageSpec, prop string, scn int, race bool, tag string, replay
 			fail("run", "C12", "the Go race detector reported a data race in generated code or the scheduler", stripDraws(o))
 			out.fail.Inner = b
 		case strings.Contains(o, "panic:") || strings.Contains(o, "fatal error:"):
-			fail("run", "C04", "the process running generated code died: a panic escaped the directive", stripDraws(o))
+			who := "C04"
+			var cur struct {
+				Findings []rt.Finding `json:"findings"`
+			}
+			if json.Unmarshal(b, &cur) == nil && len(cur.Findings) > 0 && cur.Findings[0].Prop == "C20" {
+				who = "C20" // died inside the modifier-mode twin
+			}
+			fail("run", who, "the process running generated code died: a panic escaped the directive", stripDraws(o))
 			out.fail.Inner = b
 		default:
 			out.inconclusive = "inner driver exited abnormally: " + tailStr(stripDraws(o), 1500)
